@@ -71,6 +71,25 @@ func c02Gen(c *core.Ctx) func(yield func(c02Case) bool) {
 			}
 		}
 		sliceOpt = false
+		// doubled edges: one target through a single-valued point and a slice of the same holder
+		{
+			ok := true
+			allGraphs(3, []int{scen.ENone, scen.EName, scen.EBoth}, false, func(e [][]int) bool {
+				any := false
+				for i := range e {
+					for _, k := range e[i] {
+						any = any || k == scen.EBoth
+					}
+				}
+				if any {
+					ok = emit("doubled-n3", 3, e)
+				}
+				return ok
+			})
+			if !ok {
+				return
+			}
+		}
 		// programmatic look-ups during initialisation: node i looks node j up inside its Init (the
 		// only outgoing "edge" of i may be such a look-up), eager and lazy targets
 		var lookups [][][]int // one look-up, or two (possibly facing each other)
